@@ -96,6 +96,34 @@ func c10(p *an.Prog, r *an.R, tier string) {
 				addr = x.Addr
 			case *ssa.MapUpdate:
 				addr = x.Map
+			case *ssa.Call:
+				// a method of postingList (e.g. a truncate/append helper) stores on behalf of its caller
+				callee := x.Call.StaticCallee()
+				if callee == nil || callee.Pkg == nil || callee.Pkg.Pkg != idx.Types || len(callee.Blocks) == 0 || len(x.Call.Args) == 0 || an.NamedOf(x.Call.Args[0].Type()) != plT {
+					return
+				}
+				c := containerOf(x.Call.Args[0])
+				an.Instrs(callee, func(_ *ssa.BasicBlock, in2 ssa.Instruction) {
+					st, ok := in2.(*ssa.Store)
+					if !ok {
+						return
+					}
+					root := st.Addr
+					for {
+						if ia, ok := root.(*ssa.IndexAddr); ok {
+							root = ia.X
+							continue
+						}
+						break
+					}
+					if fa, ok := root.(*ssa.FieldAddr); ok && an.NamedOf(fa.X.Type()) == plT && len(callee.Params) > 0 && fa.X == ssa.Value(callee.Params[0]) {
+						if s.pl[c] == nil {
+							s.pl[c] = map[string]bool{}
+						}
+						s.pl[c][an.StructFields(plT)[fa.Field].Name()] = true
+					}
+				})
+				return
 			default:
 				return
 			}
@@ -193,27 +221,46 @@ func c10(p *an.Prog, r *an.R, tier string) {
 		g := an.NewG(info, gd.Decl.Body)
 		r.Fn("index.(*Builder).getPostingsBuilder")
 		// the variable bound to the pooled value
-		var pooled types.Object
-		ast.Inspect(gd.Decl.Body, func(n ast.Node) bool {
-			as, ok := n.(*ast.AssignStmt)
-			if ok && len(an.CallsTo(info, as, false, poolGet)) > 0 {
-				if id, ok := as.Lhs[0].(*ast.Ident); ok {
-					pooled = info.ObjectOf(id)
+		// the variables bound to the pooled value (directly, or through a type assertion of it)
+		pooledSet := map[types.Object]bool{}
+		for changed := true; changed; {
+			changed = false
+			ast.Inspect(gd.Decl.Body, func(n ast.Node) bool {
+				as, ok := n.(*ast.AssignStmt)
+				if !ok || len(as.Rhs) != 1 {
+					return true
 				}
-			}
-			return true
-		})
-		if r.Anchor(pooled != nil, "getPostingsBuilder/pooled value") {
+				from := len(an.CallsTo(info, as, false, poolGet)) > 0
+				ast.Inspect(as.Rhs[0], func(m ast.Node) bool {
+					if id, ok := m.(*ast.Ident); ok && pooledSet[info.ObjectOf(id)] {
+						from = true
+					}
+					return true
+				})
+				if from {
+					if id, ok := as.Lhs[0].(*ast.Ident); ok && info.ObjectOf(id) != nil && !pooledSet[info.ObjectOf(id)] {
+						pooledSet[info.ObjectOf(id)] = true
+						changed = true
+					}
+				}
+				return true
+			})
+		}
+		usesPooled := func(e ast.Expr) bool {
+			id, ok := ast.Unparen(e).(*ast.Ident)
+			return ok && pooledSet[info.ObjectOf(id)]
+		}
+		if r.Anchor(len(pooledSet) > 0, "getPostingsBuilder/pooled value") {
 			k := 0
 			for _, l := range g.Locs(func(n ast.Node) bool { rs, ok := n.(*ast.ReturnStmt); return ok && len(rs.Results) == 1 }) {
 				rsn := g.Node(l).(*ast.ReturnStmt)
-				if !an.UsesObj(info, rsn.Results[0], pooled) {
+				if !usesPooled(rsn.Results[0]) {
 					continue
 				}
 				k++
 				isReset := func(x an.Loc) bool {
 					for _, c := range an.CallsTo(info, g.Node(x), false, resetObj) {
-						if se, ok := ast.Unparen(c.Fun).(*ast.SelectorExpr); ok && an.UsesObj(info, se.X, pooled) {
+						if se, ok := ast.Unparen(c.Fun).(*ast.SelectorExpr); ok && usesPooled(se.X) {
 							return true
 						}
 					}
